@@ -258,7 +258,7 @@ func addIO(m map[string]Intrinsic) {
 	m["(*os.File).ReadAt"] = func(vm *VM, fn *ssa.Function, args []Value) Value {
 		h := vm.handleOf(args[0])
 		dst := args[1].(SliceV)
-		off := constInt(vm, args[2], "ReadAt offset")
+		off := vm.concreteInt(args[2].(*Term), "ReadAt offset")
 		if h == nil || h.closed {
 			return TupleV{intV(0), vm.pathErr("read", "?", "file already closed")}
 		}
@@ -285,7 +285,7 @@ func addIO(m map[string]Intrinsic) {
 	}
 	m["(*os.File).Seek"] = func(vm *VM, fn *ssa.Function, args []Value) Value {
 		h := vm.handleOf(args[0])
-		off := constInt(vm, args[1], "Seek offset")
+		off := vm.concreteInt(args[1].(*Term), "Seek offset")
 		whence := constInt(vm, args[2], "Seek whence")
 		if h == nil || h.closed {
 			return TupleV{intV(0), vm.pathErr("seek", "?", "file already closed")}
